@@ -264,8 +264,18 @@ func init() {
 				return
 			}
 		}
+		var prevSrc []byte
 		check := func(src []byte, origin string) {
 			st.add("inputs", 1)
+			// every eighth input: the tokens of the previous input, kept as objects, must read the same after this
+			// input has been scanned by another lexer
+			if st.get("inputs")%8 == 1 && prevSrc != nil {
+				st.add("token_stability_pairs", 1)
+				if msg := tokensStable(im, prevSrc, src); msg != "" {
+					st.violation("C08", it.ID+" stable "+strconv.Quote(string(prevSrc))+" "+strconv.Quote(string(src)), msg, map[string]any{"first": strconv.Quote(string(prevSrc)), "second": strconv.Quote(string(src))})
+				}
+			}
+			prevSrc = append([]byte(nil), src...)
 			c01, c08, got, want := compareScan(im, lr, src)
 			st.add("tokens_compared", int64(len(want)))
 			for _, f := range [][2]string{{"C01", c01}, {"C08", c08}} {
@@ -335,4 +345,20 @@ func init() {
 			}
 		}
 	}
+}
+
+// tokensStable: tokens handed out by one lexer must not change when another lexer of the same package scans another
+// input afterwards (nor when the same input is scanned again). Returns a description of the first change.
+func tokensStable(im *rt.Impl, a, b []byte) string {
+	if im.ScanKeep == nil {
+		return ""
+	}
+	ka := im.ScanKeep(a)
+	before := fmt.Sprint(ka())
+	kb := im.ScanKeep(b)
+	_ = kb()
+	if after := fmt.Sprint(ka()); after != before {
+		return fmt.Sprintf("the tokens of %q read %s when they were handed out and %s after another lexer had scanned %q", a, before, after, b)
+	}
+	return ""
 }
